@@ -4,6 +4,7 @@
    readline when os.getpid() differs; a schedule is an arbitrary list of fork / seek / read events of any processes. *)
 From Coq Require Import ZArith List Bool Arith.
 From WPU Require Import Common.Val Model.Pool Model.Storage Model.ForkRead Proofs.ForkReadP.
+From WPU Require Model.LineFile.
 Import ListNotations.
 Open Scope nat_scope.
 
@@ -28,6 +29,16 @@ Print Assumptions C18_own_description.
 Theorem C18_step : forall content offs s e s', RInv content offs s -> fstep true content offs s e = Some s' -> RInv content offs s'.
 Proof. exact rinv_step. Qed.
 Print Assumptions C18_step.
+
+(* with the index the classes build themselves (Model/LineFile.v index_file, the C11 model): what any process reads for item i,
+   under any tree of forks and any interleaving, is the i-th line of the file *)
+Theorem C18_reads_lines : forall content sched,
+  let offs := map Z.to_nat (LineFile.index_file content) in
+  let s := frun true content offs finit sched in
+  forall p i line, In (p, i, line) (fs_out s) ->
+    i < length (LineFile.lines_of content) /\ line = nth i (LineFile.lines_of content) [].
+Proof. exact fork_reads_lines. Qed.
+Print Assumptions C18_reads_lines.
 
 (* progress of one access, in EVERY reachable state (any tree of forks, any interleaving so far): a process whose seek to item i
    is pending gets its read accepted, and the read appends exactly one record - its own pid, item i, the line at that offset *)
